@@ -15,7 +15,7 @@ from itertools import combinations
 from hypothesis import strategies as st
 
 from vlib import rng
-from vlib.runner import call
+from vlib.runner import call, Violation
 
 
 # --------------------------------------------------------------------------- templates
@@ -178,6 +178,9 @@ def gcm_case(draw, tier, algos=("fast", "network", "motifs"), max_leaf_stubs=Non
     if draw(st.integers(0, 3)) == 0:
         # the same generator object was already used for an earlier graph
         c["prior"] = draw(st.sampled_from(["same", "reversed", "doubled"]))
+    if draw(st.integers(0, 3)) == 0:
+        # the caller re-uses its parameter dictionary for something else after the generator was constructed
+        c["params_reassigned"] = True
     return c
 
 
@@ -239,6 +242,18 @@ def build(case, journal):
     else:
         params[GN.GCM_TYPE] = typ if path == "main_enum" else typ.value
         g = call("construct-main", GCMAlgorithmMain.load_gcm_algorithm, params)
+    if case.get("params_reassigned"):
+        # the generator is configured at construction: what the caller later stores under the same keys of its own
+        # dictionary (here: other sizes, other callbacks, other names) configures nothing
+        def foreign(vertices):
+            raise Violation("params-reread", "the generator invoked a build callback that was stored in the caller's "
+                                             "parameter dictionary after the generator had been constructed")
+        n = len(case["motifs"])
+        params[GN.MOTIF_SIZES] = [s + 1 for s in motif_sizes(case)]
+        params[GN.BUILD_FUNCTIONS] = [foreign] * n
+        params[GN.EDGE_NAMES] = [(lambda: ["foreign"] * 8) if algo == "motifs" else "foreign"] * n
+        if algo == "motifs":
+            params[GN.MOTIF_INDICES] = [[0]] * n
     return g, cls
 
 
@@ -292,6 +307,8 @@ def classes_of(case):
         cl.add("scripted_rng")
     if case.get("prior"):
         cl.add("generator_reused")
+    if case.get("params_reassigned"):
+        cl.add("params_dict_reassigned_after_construction")
     cl.add("algo_" + case["algo"])
     cl.add("path_" + case["path"])
     for m in case["motifs"]:
